@@ -67,21 +67,25 @@ def run(ctx):
     if r is None:
         wt_bad.append(err)
     else:
-        ranges = wt.func_ranges(os.path.join(d, "a", "a.go"))
-        touched = set()
-        for dg in r["diags"]:
-            touched |= wt.lines_mentioned(dg, "a/a.go")
-        for name, (lo, hi) in sorted(ranges.items()):
-            hit = any(lo <= x <= hi for x in touched)
+        allranges = []
+        for fn in sorted(os.listdir(os.path.join(d, "a"))):
+            if not fn.endswith(".go"):
+                continue
+            ranges = wt.func_ranges(os.path.join(d, "a", fn))
+            touched = set()
+            for dg in r["diags"]:
+                touched |= wt.lines_mentioned(dg, "a/" + fn)
+            allranges += [(name, lo, hi, "a/" + fn, any(lo <= x <= hi for x in touched)) for name, (lo, hi) in sorted(ranges.items())]
+        for name, lo, hi, fn, hit in allranges:
             low = name.lower()
             if low.startswith("report"):
                 nfun += 1
                 if not hit:
-                    wt_bad.append("%s (a/a.go:%d-%d): annotated program expected a diagnostic, none touches it" % (name, lo, hi))
+                    wt_bad.append("%s (%s:%d-%d): annotated program expected a diagnostic, none touches it" % (name, fn, lo, hi))
             elif low.startswith("silent"):
                 nfun += 1
                 if hit:
-                    wt_bad.append("%s (a/a.go:%d-%d): guarded use of an annotated-nilable site, but a diagnostic touches it" % (name, lo, hi))
+                    wt_bad.append("%s (%s:%d-%d): guarded use of an annotated-nilable site, but a diagnostic touches it" % (name, fn, lo, hi))
         if r.get("errors"):
             wt_bad.append("driver errors: %r" % r["errors"])
     ctx.obligation("whole tool on corpus/c10 (%d annotated functions: nilable/nonnil on params, results, receivers, fields, globals; guarded and unguarded)" % nfun, not wt_bad)
